@@ -75,6 +75,12 @@ async def _one_history(seed_rng: random.Random, size: int, prim_ops: int):
         while n < size and await sim.step_once():
             n += 1
         events = list(with_before(sim.events))
+        # a rejected reconcile_targets (forbidden target) makes the real director exit: the
+        # simulator goes on for its own purposes, the history that counts ends there
+        for i, e in enumerate(events):
+            if e["op"] == "reconcile" and "rejected" in e:
+                events = events[:i + 1]
+                break
         if prim_ops and not any("error" in e for e in events):
             prims = await _primitive_ops(sim, rng, prim_ops)
     finally:
@@ -232,6 +238,11 @@ def _fragment_cases(ctx, checks, descr):
     from translator import sqlexpr
     rng = ctx.rng
     con = _sq.connect(":memory:")
+    facts = getattr(ctx, "facts", None)      # absent when the translator failed closed
+    try:
+        ui_ast = facts["fragments"]["unavailable_input"] if facts else sqlexpr.parse(UNAVAILABLE_INPUT_WHERE)
+    except Exception:  # noqa: BLE001 - outside the grammar: only the Coq/SQLite comparison remains
+        ui_ast = None
     fstates = list(range(10, 20))
     n = ctx.scale(150, 1500)
     for _ in range(n):
@@ -240,7 +251,7 @@ def _fragment_cases(ctx, checks, descr):
                f"(SELECT {det} AS detached) AS input_node, (SELECT {'1' if dyn else 'NULL'} AS i) AS dynamic_dep")
         exp = con.execute(sql).fetchone()[0]
         env = {("input_file", "state"): fs, ("input_node", "detached"): det, ("dynamic_dep", "i"): 1 if dyn else None}
-        py = sqlexpr.evaluate(ctx.facts["fragments"]["unavailable_input"], env)
+        py = sqlexpr.evaluate(ui_ast, env) if ui_ast is not None else exp
         if bool(py) != bool(exp):
             ctx.add_failure("correspondence", "sqlexpr.evaluate", "E1:sqlexpr-evaluate",
                             f"reference evaluator disagrees with SQLite on {env}", witness={"env": str(env)})
@@ -417,7 +428,7 @@ def _explain(ctx, hs, d, check):
             f"(flaginv_safe_b {gb}, flaginv_need_b {gb}, flaginv_ready_b {gb}, nostalelow_b {gb}, allcorrect_b {ga} && has_hash_inv_b {ga})"])
         detail += (f"; rows that differ after update_meta: {vals[0]}; model dispatch set: {vals[1]}; real choice: "
                    f"{ev.get('choice')}; Coq (flaginv_safe, flaginv_need, flaginv_ready, nostalelow, allcorrect) = {vals2[0]}, "
-                   f"Python = {d[3]}")
+                   f"Python = {d[3] if len(d) > 3 else 'n/a'}")
     return wit, detail
 
 
